@@ -7,16 +7,21 @@ package main
 // raw buffers.
 
 import (
+	"bytes"
+	"encoding/json"
+	"encoding/base64"
 	"encoding/binary"
 	"fmt"
 	"strconv"
 	"strings"
 	"unicode/utf16"
 
+	"Havoc/pkg/agent"
 	"Havoc/pkg/common"
 	"Havoc/pkg/common/parser"
 
 	"verifharness/internal/gen"
+	"verifharness/internal/mockts"
 )
 
 func init() { commands["C03"] = runC03 }
@@ -229,6 +234,74 @@ func c03Line(c *Ctx, in string) {
 			}
 			return hx([]byte(s)) + " " + hx(p.Buffer())
 		}))
+	case "dirlist": // dirlist <explorer 0|1> <namehex:isdir:size,…>: the agent's directory listing; what the operator is shown per entry
+		var ents [][3]string
+		for _, e := range strings.Split(parts[2], ",") {
+			f := strings.Split(e, ":")
+			ents = append(ents, [3]string{string(unhx(f[0])), f[1], f[2]})
+		}
+		out := guard(func() string {
+			ts := mockts.New()
+			a := newAgent(0x03d10001, bytes.Repeat([]byte{3}, 32), bytes.Repeat([]byte{4}, 16))
+			ts.Agents = append(ts.Agents, a)
+			a.AddRequest(agent.Job{Command: agent.COMMAND_FS, RequestID: 0x3100})
+			nf, nd := 0, 0
+			fs := []fld{fI(agent.DEMON_COMMAND_FS_DIR), fI(uint32(parts[1][0] - '0')), fI(0), fW("C:\\x\\*"), fI(1)}
+			var efs []fld
+			var total uint64
+			for _, e := range ents {
+				sz, _ := strconv.ParseUint(e[2], 10, 64)
+				isd := uint32(0)
+				if e[1] == "1" {
+					isd = 1
+					nd++
+				} else {
+					nf++
+					total += sz
+				}
+				efs = append(efs, fW(e[0]), fI(isd), fQ(sz), fI(7), fI(3), fI(2024), fI(59), fI(23))
+			}
+			fs = append(fs, fW("C:\\x\\*"), fI(uint32(nf)), fI(uint32(nd)), fQ(total))
+			fs = append(fs, efs...)
+			a.TaskDispatch(0x3100, agent.COMMAND_FS, newParser(encFields(fs)), ts)
+			var shown []string
+			if parts[1] == "1" {
+				raw, err := base64.StdEncoding.DecodeString(ts.LastConsole["MiscData"])
+				if err != nil {
+					return "shown=UNREADABLE"
+				}
+				var m struct {
+					Files []map[string]string
+				}
+				if json.Unmarshal(raw, &m) != nil {
+					return "shown=UNREADABLE"
+				}
+				for _, f := range m.Files {
+					k := "f"
+					if f["Type"] == "dir" {
+						k = "d"
+					}
+					shown = append(shown, hx([]byte(f["Name"]))+":"+k)
+				}
+			} else {
+				for _, l := range strings.Split(ts.LastConsole["Output"], "\n") {
+					if !strings.Contains(l, "/2024") {
+						continue
+					}
+					fl := strings.Fields(l)
+					k := "f"
+					if strings.Contains(l, "<DIR>") {
+						k = "d"
+					}
+					shown = append(shown, hx([]byte(fl[len(fl)-1]))+":"+k)
+				}
+			}
+			if len(shown) == 0 {
+				return "shown=-"
+			}
+			return "shown=" + strings.Join(shown, ",")
+		})
+		c.Emit("%s => %s", in, out)
 	case "stripnull":
 		buf := unhx(parts[1])
 		c.Emit("%s => %s", in, guard(func() string { return hx([]byte(common.StripNull(string(buf)))) }))
@@ -250,6 +323,15 @@ func runC03(c *Ctx) {
 	for i := 0; c.Lines < c.N; i++ {
 		if i%12 == 11 {
 			genSessionCase(c)
+			continue
+		}
+		if i%40 == 7 { // a directory listing as the agent reports it, for the console and for the client's file explorer
+			var es []string
+			for k := 0; k < 1+r.Intn(6); k++ {
+				es = append(es, fmt.Sprintf("%s:%d:%d", hx([]byte(gen.Pick(r, []string{"notes.txt", "Projects", "report.docx", "ünï", "a", "x.bin", "Dir2"})+fmt.Sprint(k))), r.Intn(2), gen.Pick(r, []int{0, 1, 999, 1 << 20, 1 << 33})))
+			}
+			c.Count("dirlist")
+			c03Line(c, fmt.Sprintf("dirlist %d %s", r.Intn(2), strings.Join(es, ",")))
 			continue
 		}
 		switch k := r.Intn(10); {
